@@ -50,6 +50,13 @@ def register_loads(reg):
           "C18+C06.inputs-and-configuration-untouched": "heap_unchanged(%s) and fs_same()" % LINKS,
       },
       raises={"C18+C06.inputs-and-configuration-untouched": "heap_unchanged(%s) and fs_same()" % LINKS})
+    LOADS_MOD = ["dict:self._data", "set:self._default_value_keys", "dict:self._fields", "fs", "rand_ctr", "fresh", "ncalls", "nparse", "nload",
+                 "Config._Config__keyfile@*", "Config._Config__default_keyfile@*", "KeyFile._KeyFile__key@*", "KeyFile._KeyFile__refcount@*", "Config._parent@*", "Config._key@*", "Config._container@*"]
+    C("core:Config.load", params={"filename": "str", "format": "str"}, returns="any", modifies=LOADS_MOD,
+      assumes={"A.acyclic": "True"},
+      ensures={"C19.the-document-is-exactly-the-bytes-of-the-file": "old(fs_present(expanduser(filename))) and loc_content == old(fs_content(expanduser(filename)))",
+               },
+      raises={})
     FR = "heap_unchanged(%s, %s, self._data, self._default_value_keys, self._fields)" % (LINKS, KS)
     C("core:Config.loads", params={"content": "str|bytes", "format": "str", "kwargs": "ref:dict"},
       assumes={"A.acyclic": "True"},
